@@ -98,7 +98,7 @@ AOptX == [AOpt EXCEPT !.simple = {IncA, [k |-> "unsup", u |-> "clo-loopvar", id 
 AByX == [ABy EXCEPT !.simple = {IncA, EffX([k |-> "pk", n |-> "a"]),
                                 EffX([k |-> "swp", n |-> "a"]), EffX([k |-> "dup", n |-> "a"]), EffX([k |-> "idi", n |-> "a"]), EffX([k |-> "unn", n |-> "a"]), EffX([k |-> "perr", n |-> "a"]), EffX([k |-> "vari", n |-> "a"]), EffX([k |-> "idg", n |-> "a"]), EffX([k |-> "ln"]), EffX([k |-> "cnv", n |-> "a"]), EffX([k |-> "gets"])}]
 \* constructs outside the supported subset (C12): a small control alphabet plus exactly one such construct
-UKinds == {"lbreak", "lcont", "goto", "select", "selbrk", "defer", "fallyield", "ifinit", "rparr", "rfunc", "rtparam", "lrange", "parenyield", "rparrdefer", "rparrbrk", "rparrcnt", "elifinit",
+UKinds == {"lbreak", "lcont", "goto", "select", "selbrk", "defer", "fallyield", "ifinit", "rparr", "rfunc", "rtparam", "lrange", "parenyield", "rparrdefer", "rparrbrk", "rparrcnt", "elifinit", "fordefer",
            "clo-lbreak", "clo-goto", "clo-select", "clo-defer", "clo-rfunc", "clo-rparr", "clo-fall", "clo-selbrk", "clo-lrange"}
 AUnsup == [simple |-> {Eff, Y(VarA)} \cup {[k |-> "unsup", u |-> u, id |-> 0] : u \in UKinds},
            inits |-> {None}, posts |-> {None, Y(VarA)}, conds |-> {T0}, ifinits |-> {None},
